@@ -225,4 +225,16 @@ var props = map[string]Prop{
 			prog("programs", "./harness/c14", "TestC14Programs", 2, 60, 8, 16),
 		},
 	},
+	"C09": {
+		ID: "C09", Level: "exploration",
+		Rule: "rapid generates pairs of a Go main package and a C file (bound through LLGoFiles) of 10-30 units; a unit draws a C-compatible struct shape (1-6 fields of int8..int64, uint8..uint64, float, double, arrays of 1-4 scalars, one level of nesting; <= 80 bytes; biased to the SysV classification edges: all-float, float+int in one eightbyte, exactly two integer eightbytes, double+int64) and a signature that puts it after 0-8 and before 0-3 scalar arguments (biased to exhausting the integer or SSE registers). Three crossings per unit: Go calls C with the values, C returns the struct to Go, C calls a Go callback (named function or non-capturing function literal) with the values and checks the struct it returns. Each receiving side folds every scalar it sees (sign-extended / as IEEE bits) into an FNV-1a checksum; the expected checksums are computed by the harness from the generated literals. The C file is compiled by the host clang. Built at O0, O2 and Oz. Non-trivial: struct classified MEMORY (> 16 bytes), or with an SSE part, or registers exhausted, or a function-literal callback; distinct by unit description.",
+		Assumptions: []string{
+			"host ABI only (x86-64 SysV); other architectures' classifiers cannot be executed here",
+			"callbacks handed to C as bare function pointers do not capture variables: a C signature without a context argument has no place for closure state (capturing closures crash in llgo; not generated)",
+			"values are integers with the top bit set and dyadic floats; strings/byte buffers (c.AllocaCStr, c.GoString) are not part of this job",
+		},
+		Jobs: []Job{
+			prog("programs", "./harness/c09", "TestC09Programs", 3, 80, 8, 16),
+		},
+	},
 }
